@@ -264,21 +264,22 @@ func (ctx *RenderContext) GetVariable(name string) (interface{}, error) {
 		}
 	}
 
-	// Check local context first
-	if value, ok := ctx.context[name]; ok {
-		return value, nil
-	}
-
-	// Check globals
-	if ctx.env != nil {
-		if value, ok := ctx.env.globals[name]; ok {
+	// Check this context and the enclosing ones first: a variable of the
+	// template (a context entry, a set, a loop or with variable) hides an
+	// engine global of the same name at every depth, also inside an include
+	for c := ctx; c != nil; c = c.parent {
+		if value, ok := c.context[name]; ok {
 			return value, nil
 		}
 	}
 
-	// Check parent context
-	if ctx.parent != nil {
-		return ctx.parent.GetVariable(name)
+	// Check globals
+	for c := ctx; c != nil; c = c.parent {
+		if c.env != nil {
+			if value, ok := c.env.globals[name]; ok {
+				return value, nil
+			}
+		}
 	}
 
 	// Return nil with no error for undefined variables
